@@ -752,6 +752,8 @@ func newResolvers() *hosts.ResolverMap {
 	return rm
 }
 
+var quietOnce sync.Once
+
 type runOut struct {
 	res      *results.Result
 	err      error
@@ -761,7 +763,7 @@ type runOut struct {
 func runWith(q interface {
 	Query(context.Context, hosts.Hosts, *query.Args) (<-chan *results.Result, <-chan struct{})
 }, s *caseSpec, streaming bool) runOut {
-	eng.QuietLogs(nil)
+	quietOnce.Do(func() { eng.QuietLogs(nil) })
 	runner := gqd.NewQueryRunner(newResolvers(), q)
 	var o runOut
 	if !streaming {
